@@ -29,6 +29,12 @@ with a shrunk failing input, implementation != specification):
   7 cosineindex.py query_weight returns the sum instead of its square root
   8 okapiindex.py (Python loop) K1_plus1 = K1 + 1.1
   9 okapiindex.py reindex_doc no longer adds the new length (D19 re-introduced)
+Reads must not change what later reads see (cfg cutoff, repeated one-word reads): the cosine back end hands the STORED
+IFBTree of a word in more than DICT_CUTOFF documents to the set operations uncopied.  Seeded change C08_F (setops._trivial
+scales its single operand in place) was missed before and is caught now; two more of the class, both VIOLATION on quick
+seed 0 here and in C20, both missed by the generators before:
+  10 setops.mass_weightedIntersection scales a single operand in place (reached only by a one-id search_phrase)
+  11 baseindex.search_glob scales the map in place when the glob matches a single word
 """
 import importlib.util
 import math
@@ -787,7 +793,13 @@ RULE = ("a corpus = a history of 2-20 index_doc (new and existing ids), direct r
         "and for TextIndex apply() of generated AND/OR/NOT/phrase/glob trees rendered to query strings "
         "(the parse is checked against the generated tree); Okapi via the rebuilt C extension, via the "
         "PURE_PYTHON loop, via TextIndex; cosine directly and via TextIndex; okascore.score called directly "
-        "with tf up to 300 and lengths up to 3000; both families. A corpus is non-trivial if a scored "
+        "with tf up to 300 and lengths up to 3000; both families; DICT_CUTOFF set on the instance to 2 / 3 / left at "
+        "10 (a third each; with 10, 30% of the corpora get 12-16 documents sharing one word), and after 60% of the "
+        "first query rounds (35% of the later ones) the SAME one-word read (search / one-id phrase / glob with a "
+        "single match / apply of an atom, glob or word+stop-word phrase) on the most frequent word is issued, "
+        "followed by 1-2 other reads, then again (measured quick seed 0, of 1200 corpora: same one-word read repeated "
+        "on an unchanged corpus 807 on a dict posting + 226 on a stored IFBTree posting, of these 78 cosine; a scored "
+        "query on a word beyond the cut-off 326, beyond 10 documents 52). A corpus is non-trivial if a scored "
         "document has tf > 1 for a query word and len != mean")
 LEVEL_TEXT = ("Lean 4 theorems over the reals: for every document table and every list of query word ids the "
               "modelled search / search_glob / search_phrase of OkapiIndex and CosineIndex (per-term maps, "
